@@ -1,0 +1,56 @@
+//go:build verif
+
+package ring
+
+// Verification hooks for property C16 (build tag `verif`): thin exported wrappers over unexported
+// functions and constants of the token generators. Add-only; no behaviour of their own.
+
+import "math/rand"
+
+// VerifC16Constants exposes the constants of spread_minimizing_token_generator.go.
+func VerifC16Constants() (totalTokens uint64, tokensPerInstance, maxZones int) {
+	return uint64(totalTokensCount), optimalTokensPerInstance, maxZonesCount
+}
+
+// VerifNewRandomTokenGeneratorWithRand builds a RandomTokenGenerator around the given *rand.Rand
+// (the public constructors only allow a time-based or int64 seed for the stdlib source).
+func VerifNewRandomTokenGeneratorWithRand(r *rand.Rand) *RandomTokenGenerator {
+	return &RandomTokenGenerator{r: r}
+}
+
+// VerifGenerateTokensByInstanceID exposes generateTokensByInstanceID (tokens in generation order).
+func (t *SpreadMinimizingTokenGenerator) VerifGenerateTokensByInstanceID() (map[int]Tokens, error) {
+	return t.generateTokensByInstanceID()
+}
+
+// VerifGenerateFirstInstanceTokens exposes generateFirstInstanceTokens.
+func (t *SpreadMinimizingTokenGenerator) VerifGenerateFirstInstanceTokens() Tokens {
+	return t.generateFirstInstanceTokens()
+}
+
+// VerifGenerateAllTokens exposes generateAllTokens.
+func (t *SpreadMinimizingTokenGenerator) VerifGenerateAllTokens() (Tokens, error) {
+	return t.generateAllTokens()
+}
+
+// VerifCalculateNewToken exposes calculateNewToken for the range (prevToken, token].
+func (t *SpreadMinimizingTokenGenerator) VerifCalculateNewToken(token, prevToken, optimalTokenOwnership uint32) (uint32, error) {
+	return t.calculateNewToken(ringToken{token: token, prevToken: prevToken}, optimalTokenOwnership)
+}
+
+// VerifOptimalTokenOwnership exposes optimalTokenOwnership.
+func (t *SpreadMinimizingTokenGenerator) VerifOptimalTokenOwnership(optimalInstanceOwnership, currInstanceOwnership float64, remainingTokensCount uint32) uint32 {
+	return t.optimalTokenOwnership(optimalInstanceOwnership, currInstanceOwnership, remainingTokensCount)
+}
+
+// VerifTokenDistance exposes tokenDistance.
+func VerifTokenDistance(from, to uint32) int64 { return tokenDistance(from, to) }
+
+// VerifOwnershipLess evaluates ownershipPriorityQueue.Less on two (ownership, key) pairs of
+// ringInstance items.
+func VerifOwnershipLess(ownI float64, keyI int, ownJ float64, keyJ int) bool {
+	pq := ownershipPriorityQueue[ringInstance]{items: []ownershipInfo[ringInstance]{
+		newRingInstanceOwnershipInfo(keyI, ownI), newRingInstanceOwnershipInfo(keyJ, ownJ),
+	}}
+	return pq.Less(0, 1)
+}
